@@ -1,13 +1,22 @@
 /-
 C19 — Numeric and channel lists decode entry by entry exactly as written.
-Property theorems only; helper lemmas in ScpiVerif/Lemmas/ExprList.lean.
+Property theorems only; helper lemmas in ScpiVerif/Lemmas/ExprList.lean, ExprListMalformed.lean and ExprListDouble.lean.
 `Expr.numericListEntry` / `Expr.channelListEntry` model SCPI_ExprNumericListEntry /
 SCPI_ExprChannelListEntry on the text between the parentheses; `Spec.ExprList` is the list grammar.
+
+Double-valued variant (SCPI_ExprNumericListEntryDouble): `Expr.tokDoubleText` is the text SCPI_ParamToDouble hands to
+strtod for a token of the list.  `numeric_entry_double` says it is the written number whenever that number has no
+inner white space; C04's known finding (`C04.whitespace_in_literal`, white space before the exponent or after its E
+ends the conversion) applies to list entries exactly as it does to parameters: `numeric_entry_double_counterexample`.
+That strtod delivers the correctly rounded value of the text is trusted and compared bit-exactly (as in C04).
 -/
 import ScpiVerif.Model.Expr
 import ScpiVerif.Spec.ExprList
 import ScpiVerif.Lemmas.ExprList
 import ScpiVerif.Lemmas.ExprListMalformed
+import ScpiVerif.Lemmas.ExprListDouble
+import ScpiVerif.Spec.Float
+import ScpiVerif.Props.C04
 
 namespace ScpiVerif.Props.C19
 open ScpiVerif ScpiVerif.Lexer ScpiVerif.Spec.ExprList
@@ -69,6 +78,67 @@ theorem channel_no_more_iff (body : Bytes) (i cap : Nat) :
     (channelListEntry body i cap).res = .noMore ↔ ∃ l, parseChanList body = some l ∧ l.length ≤ i :=
   Lemmas.ExprList.channel_no_more_iff body i cap
 
+/-! ### the double-valued variant -/
+
+/-- no blank (32) or tab (9) inside the number: the hypothesis under which strtod converts all of it -/
+def noInnerWs (t : Bytes) : Bool := t.all (fun b => b != 32 && b != 9)
+
+/-- Full statement for the values of SCPI_ExprNumericListEntryDouble: for every well-formed numeric list and every entry i
+of it, at the position of each returned token the token specification delimits exactly the written number
+(`C04.literalAt`), that number has a value in the sense of Spec/Float.lean (the correctly rounded double of which the
+judge compares with), and - if the number contains no inner white space - the text handed to strtod is exactly the
+written number.  Nothing else is assumed: the hexadecimal-constant side condition of `C04.conversion_sees_literal_partial`
+(a literal "0" must not be followed by x / X) is discharged, because a well-formed list has no such byte
+(`numeric_list_bytes`).  Leading white space plays no role: the walker does not skip any, the token starts at the first
+byte of the number, and that byte is a sign, a digit or the point (`numeric_entry_starts_with_number`). -/
+theorem numeric_entry_double (body : Bytes) (l : List NumEntry) (h : parseNumList body = some l) (i : Nat)
+    (e : NumEntry) (he : l[i]? = some e) :
+    let r := numericListEntry body i
+    (C04.literalAt (body.drop r.from_.ptr) = some e.from_ ∧ (Spec.Float.litValue e.from_).isSome = true ∧
+      (noInnerWs e.from_ = true → tokDoubleText body r.from_ = e.from_)) ∧
+    (∀ t, e.to_ = some t →
+      C04.literalAt (body.drop r.to_.ptr) = some t ∧ (Spec.Float.litValue t).isSome = true ∧
+      (noInnerWs t = true → tokDoubleText body r.to_ = t)) :=
+  Lemmas.ExprListDouble.numeric_entry_double body l h i e he
+
+/-- the white-space hypothesis cannot be dropped: "1 e2" is a well-formed list of one number (value 100), entry 0 is reported
+OK with the whole text as token, but the text handed to strtod is "1" (value 1) - C04's known finding inside a list -/
+theorem numeric_entry_double_counterexample :
+    parseNumList [49, 32, 101, 50] = some [⟨[49, 32, 101, 50], none⟩] ∧
+    (numericListEntry [49, 32, 101, 50] 0).res = .ok ∧
+    tokText [49, 32, 101, 50] (numericListEntry [49, 32, 101, 50] 0).from_ = [49, 32, 101, 50] ∧
+    noInnerWs [49, 32, 101, 50] = false ∧
+    tokDoubleText [49, 32, 101, 50] (numericListEntry [49, 32, 101, 50] 0).from_ = [49] ∧
+    Spec.Float.litValue [49, 32, 101, 50] = some (false, 100, 1) ∧ Spec.Float.litValue [49] = some (false, 1, 1) := by
+  decide +kernel
+
+/-- well-formedness of the WHOLE list cannot be weakened to "entry i was reported OK" (`numeric_ok_implies_prefix_wf`): for
+the content "0x1" (not a list) entry 0 is reported OK with the token "0" - the walker does not look beyond entry i -, the
+integer variant delivers 0, but strtod is handed "0x1", a hexadecimal floating constant (value 1).  So the hexadecimal
+side condition of C04, unobservable for parameters (the suffix is always rejected), is observable through
+SCPI_ExprNumericListEntryDouble on malformed content; asking for entry 1 of the same content gives ERROR. -/
+theorem numeric_entry_double_malformed_hexfloat :
+    parseNumList [48, 120, 49] = none ∧ (numericListEntry [48, 120, 49] 0).res = .ok ∧
+    tokText [48, 120, 49] (numericListEntry [48, 120, 49] 0).from_ = [48] ∧
+    tokInt32 [48, 120, 49] (numericListEntry [48, 120, 49] 0).from_ = 0 ∧
+    tokDoubleText [48, 120, 49] (numericListEntry [48, 120, 49] 0).from_ = [48, 120, 49] ∧
+    (numericListEntry [48, 120, 49] 1).res = .error := by
+  decide +kernel
+
+/-- every byte of a well-formed numeric list is a sign, a digit, the point, e / E, blank / tab, ',' or ':' - in particular
+never 'x' / 'X', so strtod cannot take a number of the list for a hexadecimal floating constant -/
+theorem numeric_list_bytes (body : Bytes) (l : List NumEntry) (h : parseNumList body = some l) :
+    ∀ b ∈ body, (isPlusMn b || isDigit b || b == 46 || isWs b || isE b || b == 44 || b == 58) = true :=
+  fun b hb => Lemmas.ExprListDouble.numList_chars _ body l h b hb
+
+/-- every number of a well-formed list starts with a sign, a digit or the point (never with white space, which strtod
+would skip): the converted text starts where the written number starts -/
+theorem numeric_entry_starts_with_number (body : Bytes) (l : List NumEntry) (h : parseNumList body = some l) (i : Nat)
+    (e : NumEntry) (he : l[i]? = some e) :
+    (∃ b, e.from_.head? = some b ∧ (isPlusMn b || isDigit b || b == 46) = true) ∧
+    ∀ t, e.to_ = some t → ∃ b, t.head? = some b ∧ (isPlusMn b || isDigit b || b == 46) = true :=
+  Lemmas.ExprListDouble.numeric_entry_head body l h i e he
+
 -- non-vacuity: "1,2:5,7" and "@1!2:3!4,5!6"
 example : (parseNumList [49,44,50,58,53,44,55]).map (·.length) = some 3 := by decide
 example : (numericListEntry [49,44,50,58,53,44,55] 1).res = .ok := by decide
@@ -78,5 +148,16 @@ example : parseChanList [64,49,44,44,50] = none ∧ (channelListEntry [64,49,44,
     (channelListEntry [64,49,44,44,50] 1 2).res = .error ∧ (channelListEntry [64,49,44,44,50] 3 2).res = .error := by decide
 example : parseChanList [64,49,33,50,58,51] = none ∧ (channelListEntry [64,49,33,50,58,51] 0 2).res = .error := by decide
 example : parseChanList [49,44,50] = none ∧ (channelListEntry [49,44,50] 0 2).res = .error := by decide
+
+-- the double variant on "1.5,2e3:4": entry 0 hands "1.5" to strtod, entry 1 "2e3" and "4"; the hypotheses of numeric_entry_double hold
+example : (parseNumList [49,46,53,44,50,101,51,58,52]).map (·.map (fun e => (e.from_, e.to_))) =
+    some [([49,46,53], none), ([50,101,51], some [52])] := by decide +kernel
+example : tokDoubleText [49,46,53,44,50,101,51,58,52] (numericListEntry [49,46,53,44,50,101,51,58,52] 0).from_ = [49,46,53] ∧
+    tokDoubleText [49,46,53,44,50,101,51,58,52] (numericListEntry [49,46,53,44,50,101,51,58,52] 1).from_ = [50,101,51] ∧
+    tokDoubleText [49,46,53,44,50,101,51,58,52] (numericListEntry [49,46,53,44,50,101,51,58,52] 1).to_ = [52] ∧
+    noInnerWs [49,46,53] = true ∧ noInnerWs [50,101,51] = true ∧ noInnerWs [52] = true ∧
+    Spec.Float.litValue [50,101,51] = some (false, 2000, 1) := by decide +kernel
+-- leading white space is neither part of a token nor skipped: " 1" is not a well-formed list and the walker finds no entry
+example : parseNumList [32,49] = none ∧ (numericListEntry [32,49] 0).res = .noMore := by decide +kernel
 
 end ScpiVerif.Props.C19
